@@ -117,9 +117,11 @@ AllResolvable(u) ==
 RECURSIVE JoinSlash(_)
 JoinSlash(p) == IF p = <<>> THEN "" ELSE IF Len(p) = 1 THEN p[1] ELSE p[1] \o "/" \o JoinSlash(Tail(p))
 SiteKey(site) == CASE site = "properties" -> "properties/p" [] site = "items" -> "items" [] OTHER -> site
+(* RFC 6901: in a pointer token "~" is written ~0 and "/" is written ~1 *)
+EscName(n) == CASE n = "a/b" -> "a~1b" [] n = "a~1b" -> "a~01b" [] n = "a~b" -> "a~0b" [] n = "a~0b" -> "a~00b" [] OTHER -> n
 RefText(r) == JoinSlash(r.path) \o (IF r.frag = <<>> THEN ""
                                    ELSE IF r.frag[1] = "#inl" THEN "#/" \o SiteKey(r.frag[2])
-                                   ELSE "#/components/" \o r.frag[1] \o "/" \o r.frag[2])
+                                   ELSE "#/components/" \o r.frag[1] \o "/" \o EscName(r.frag[2]))
 
 (* files other than the root that loading may read: targets of refs found in loaded documents *)
 RECURSIVE ReadClosure(_, _, _)
